@@ -803,6 +803,29 @@ func ruleAliasIsBase(w *World, r *Report, rule string) {
 		info := fi.Pkg.TypesInfo
 		for _, il := range iterLoopsIn(info, fi.Decl.Body) {
 			fv := fieldOf(info, il.Coll)
+			if fv == nil {
+				// a helper that receives the option list: newInterfaceDescriptors(descriptor, options.As)
+				if po := objOf(info, il.Coll); po != nil && isParamOf(fi, info, po) {
+					k, idx := 0, -1
+					for _, fl := range fi.Decl.Type.Params.List {
+						for _, nm := range fl.Names {
+							if info.Defs[nm] == po {
+								idx = k
+							}
+							k++
+						}
+					}
+					for caller := range w.Callers()[fi] {
+						for _, c := range callsIn(caller.Decl.Body, true) {
+							if callee(caller.Pkg.TypesInfo, c) == fi.Obj && idx >= 0 && idx < len(c.Args) {
+								if f2 := plainFieldOf(caller.Pkg.TypesInfo, c.Args[idx]); f2 != nil {
+									fv = f2
+								}
+							}
+						}
+					}
+				}
+			}
 			if fv == nil || fv.Name() != "As" {
 				continue
 			}
@@ -940,7 +963,9 @@ func ruleCycleCheckFirst(w *World, r *Report, rule string) {
 				continue
 			}
 			name := cal.Name()
-			if !strings.HasPrefix(name, "validate") || recvNamed(cal) == nil || recvNamed(cal).Obj().Name() != "collection" {
+			// the validation steps, by what they report: a lifetime conflict, a missing service
+			t := w.Decls[cal]
+			if !(hasLiteralOf(w, t, modPath, "LifetimeConflictError", 2) || (hasLiteralOf(w, t, modPath, "ResolutionError", 2) && fi2HasSentinel(w, t, "ErrServiceNotFound", 2))) {
 				continue
 			}
 			n++
@@ -950,7 +975,7 @@ func ruleCycleCheckFirst(w *World, r *Report, rule string) {
 		}
 	}
 	if n == 0 {
-		r.Fail(rule, d.Name()+"#validation-steps", d.Decl.Pos(), "no validate* step of the collection found in the build pipeline")
+		r.Fail(rule, d.Name()+"#validation-steps", d.Decl.Pos(), "no step of the build pipeline reports lifetime conflicts or missing services")
 	}
 }
 
@@ -1050,13 +1075,7 @@ func ruleErrorResultNilCheckedOnValue(w *World, r *Report, rule string) {
 	n := 0
 	for _, fi := range w.FuncsOf(w.Refl) {
 		info := fi.Pkg.TypesInfo
-		callsCtor := false
-		for _, g := range w.Within(fi, 1) {
-			if callsReflectCall(g) {
-				callsCtor = true
-			}
-		}
-		if !callsCtor {
+		if !invokerFns(w)[fi] {
 			continue
 		}
 		ast.Inspect(fi.Decl.Body, func(x ast.Node) bool {
@@ -1229,14 +1248,43 @@ func ruleReflectIndexBounds(w *World, r *Report, rule string) {
 					continue // a constant or computed position: not this rule's business
 				}
 				n++
-				good := !lb.rng && isCount(lb.bound)
-				if lb.rng {
-					// range over a slice that was made with a reflect count: make([]T, t.NumIn())
-					e := resolveLocal(info, fi.Decl.Body, lb.bound, 2)
-					if mk, ok := unparen(e).(*ast.CallExpr); ok && exprStr(mk.Fun) == "make" && len(mk.Args) >= 2 && isCount(mk.Args[1]) {
-						good = true
+				// only a bound that provably is the size of a Go collection is a violation; a count, a
+				// constant, or a value whose origin is outside this function (a parameter) is not
+				var sizeOfCollection func(e ast.Expr, depth int) bool
+				sizeOfCollection = func(e ast.Expr, depth int) bool {
+					e = resolveLocal(info, fi.Decl.Body, e, 2)
+					switch x := unparen(e).(type) {
+					case *ast.BinaryExpr:
+						return depth > 0 && (sizeOfCollection(x.X, depth-1) || sizeOfCollection(x.Y, depth-1))
+					case *ast.CallExpr:
+						if id, ok := unparen(x.Fun).(*ast.Ident); ok && id.Name == "len" && len(x.Args) == 1 {
+							// len(coll): unless coll was made with a reflect count
+							ce := resolveLocal(info, fi.Decl.Body, x.Args[0], 2)
+							if mk, ok := unparen(ce).(*ast.CallExpr); ok && exprStr(mk.Fun) == "make" && len(mk.Args) >= 2 {
+								return sizeOfCollection(mk.Args[1], depth-1)
+							}
+							return true
+						}
 					}
+					return false
 				}
+				good := true
+				if lb.rng {
+					e := resolveLocal(info, fi.Decl.Body, lb.bound, 2)
+					if mk, ok := unparen(e).(*ast.CallExpr); ok && exprStr(mk.Fun) == "make" && len(mk.Args) >= 2 {
+						good = !sizeOfCollection(mk.Args[1], 2)
+					} else if _, isParam := objOf(info, e).(*types.Var); isParam && isParamOf(fi, info, objOf(info, e)) {
+						good = true // a slice handed in: its relation to the signature is the caller's business
+					} else {
+						good = false // ranging over a field / another slice of this function
+						if o := objOf(info, e); o != nil && fi.Decl.Body.Pos() <= o.Pos() && o.Pos() < fi.Decl.Body.End() {
+							good = true // a local of unknown construction
+						}
+					}
+				} else {
+					good = !sizeOfCollection(lb.bound, 2)
+				}
+				_ = isCount
 				r.Check(good, rule, fmt.Sprintf("%s#%s(%s)", fi.Name(), name, exprStr(c.Args[0])), c.Pos(), false,
 					"the position handed to reflect."+name+" is bounded by the matching count of a reflect value",
 					fmt.Sprintf("%s.%s(%s) is indexed by a loop bounded by %s, the size of a Go collection, not by the signature's own count: where the two differ (a parameter-object constructor has one parameter and one list entry per field) reflect panics with index out of range - outside any recover", exprStr(rcv), name, exprStr(c.Args[0]), exprStr(lb.bound)))
@@ -1246,4 +1294,38 @@ func ruleReflectIndexBounds(w *World, r *Report, rule string) {
 	if n == 0 {
 		r.Fail(rule, "reflect-index-bounds", token.NoPos, "no reflect positional accessor indexed by a loop variable was found")
 	}
+}
+
+// fi2HasSentinel: the function (or a helper within depth) mentions the package-level sentinel.
+func fi2HasSentinel(w *World, fi *FuncInfo, name string, depth int) bool {
+	obj := w.Godi.Types.Scope().Lookup(name)
+	if obj == nil {
+		return false
+	}
+	for _, f := range w.Within(fi, depth) {
+		if usesObj(f.Pkg.TypesInfo, f.Decl.Body, obj) {
+			return true
+		}
+	}
+	return false
+}
+
+// invokerFns: the functions of the reflection package that call the constructor
+// (reflect.Value.Call, directly or one call away) and their private helpers.
+func invokerFns(w *World) map[*FuncInfo]bool {
+	out := map[*FuncInfo]bool{}
+	for _, fi := range w.FuncsOf(w.Refl) {
+		calls := false
+		for _, g := range w.Within(fi, 1) {
+			if callsReflectCall(g) {
+				calls = true
+			}
+		}
+		if calls {
+			for _, g := range w.Within(fi, 2) {
+				out[g] = true
+			}
+		}
+	}
+	return out
 }
